@@ -248,6 +248,7 @@ class HitLog:
         self.installed = False
         self.hits = None
         self.force_gc = False
+        self.solver_results = []
         self.core_sexpr, self.last_sexpr, self.sexpr_at_solve, self.reused = {}, {}, {}, []
 
     def install(self):
@@ -259,6 +260,17 @@ class HitLog:
         me = self
         orig = S.check_unsat_cores
         orig_to = Path.to_smt2
+        import halmos.__main__ as M
+
+        orig_solve = M.solve_end_to_end
+
+        def solve_end_to_end(path_ctx):
+            # record what every solver call of the run came back with: runs with a solver error / timeout are not compared
+            out = orig_solve(path_ctx)
+            me.solver_results.append((str(out.result), str(out.error)[:120] if out.error else None, out.returncode))
+            return out
+
+        M.solve_end_to_end = solve_end_to_end
 
         def check_unsat_cores(query, cores):
             # state invariant: the ids named by the cached cores must still denote the conditions they denoted when the core was
@@ -390,7 +402,7 @@ def check_differential(acc, contract_desc, solver, force_gc):
     name = f"{contract_desc}:{solver}:gc={int(force_gc)}"
     case = {"kind": "diff", "desc": contract_desc, "solver": solver, "gc": force_gc}
     hitlog.install()
-    res = {}
+    res, trouble = {}, {}
     for cache in (False, True):
         opts = {"solver": solver, "solver_timeout_assertion": "10s"}
         if cache:
@@ -398,6 +410,7 @@ def check_differential(acc, contract_desc, solver, force_gc):
         hitlog.hits = [] if cache else None
         hitlog.core_sexpr, hitlog.last_sexpr, hitlog.sexpr_at_solve, hitlog.reused = {}, {}, {}, []
         hitlog.force_gc = force_gc
+        hitlog.solver_results = []
         # every branching query is answered `unknown` (as with a too-short branching timeout), so that infeasible paths reach
         # the external solver and produce unsat cores
         hdriver.check_seam.start()
@@ -413,6 +426,7 @@ def check_differential(acc, contract_desc, solver, force_gc):
             acc.violation(f"crash:{name}", f"{name}: run_contract raised {rr.exception!r} (cache={cache})", case)
             return
         res[cache] = rr
+        trouble[cache] = [r for r in hitlog.solver_results if r[0] not in ("sat", "unsat")]
         acc.count("contracts")
         if cache and hitlog.reused:
             i, then, now = hitlog.reused[0]
@@ -447,8 +461,13 @@ def check_differential(acc, contract_desc, solver, force_gc):
             acc.violation(f"verdict:{name}", f"{name}: {sig}: verdict {ra.exitcode} without the cache, {rb.exitcode} with it", case)
             return
         sa, sb = cex_set(ra), cex_set(rb)
+        if len(sa) != len(sb) and (trouble[False] or trouble[True]):
+            # a solver call failed or timed out in one of the runs (reported by halmos as such): the counterexample sets are not comparable
+            acc.count("solver_trouble_not_compared")
+            acc.sample({"not_compared": name, "solver_trouble": [trouble[False][:3], trouble[True][:3]]})
+            continue
         if len(sa) != len(sb):
-            acc.violation(f"cex:{name}", f"{name}: {sig}: {len(sa)} counterexamples without the cache, {len(sb)} with it", case)
+            acc.violation(f"cex:{name}", f"{name}: {sig}: {len(sa)} counterexamples without the cache, {len(sb)} with it (all solver calls answered sat/unsat in both runs): {sorted(sa)[:4]} vs {sorted(sb)[:4]}", case)
             return
     acc.state(name)
 
@@ -530,6 +549,7 @@ def coverage(tier, merged):
         "differential_tests_compared": c.get("tests", 0),
         "real_cache_hits_rechecked_without_cache": c.get("cache_hits_rechecked", 0),
         "timeouts_not_compared": c.get("timeouts_not_compared", 0),
+        "counterexample_sets_not_compared_after_solver_error": c.get("solver_trouble_not_compared", 0),
         "exhaustive": not merged["capped"],
         "rule": "states = histories (sequences of queries on one shared solving context) replayed on the real solve_end_to_end; transitions = individual solve calls; traces validated = histories + end-to-end tests compared cache-off vs cache-on",
     }
